@@ -10,6 +10,8 @@ import OH.Props.TablesC06
 #print axioms OH.Props.C06.C06_roundtrip_identity
 #print axioms OH.Props.C06.C06_roundtrip_idempotent
 #print axioms OH.Props.C06.C06_print_never_panics
+#print axioms OH.Props.C06.C06_reparsed_evaluates_identically
+#print axioms OH.Props.C06.C06_states_do_not_depend_on_comments
 #print axioms OH.Props.TablesC06.C06_wday_names
 #print axioms OH.Props.TablesC06.C06_wday_names_complete
 #print axioms OH.Props.TablesC06.C06_month_names
